@@ -2,7 +2,7 @@
 import json
 
 from vlib import core
-from harness import c12_sites, c12_jw, c12_grouped
+from harness import c12_sites, c12_jw, c12_grouped, c12_model
 
 PROP = 'C12'
 MODEL_MODULES = ['TenpyModel.Util.J', 'TenpyModel.C12.Mat', 'TenpyModel.C12.Sites', 'TenpyModel.C12.JW']
@@ -20,7 +20,11 @@ RULE = ('site: every predefined site class over its parameter range (2S<=6, Nmax
         'spinful chains, heterogeneous chains with bosonic fillers, common charges via set_common_charges): all '
         'ordered pairs of atomic fermionic operators on all site pairs (sampled operator choice when >150), sampled '
         'products of 2-6 operators incl. compound names, repeated sites, odd parity, unit-cell indices outside '
-        '[0,L); random MPS with definite charge. A chain term is non-trivial when it touches >=2 sites and contains '
+        '[0,L); random MPS with definite charge; model: CouplingModel.add_local_term / add_coupling / '
+        'add_multi_coupling on finite lattices (uniform fermion chains L<=6, heterogeneous unit cells), plus_hc x '
+        'explicit_plus_hc, complex strengths, every ordered pair of sites x atomic operators on the uniform chains, '
+        'sampled products of 2-5 operators in any order incl. repeated sites and negative dx, several calls per '
+        'model, odd-parity calls. A chain term is non-trivial when it touches >=2 sites and contains '
         'a JW-odd operator; a grouped case when the sites have different dimensions; distinct by content hash.')
 TRUSTED = ['Lean 4.33 kernel; axioms of every C12_* theorem within {propext, Classical.choice, Quot.sound}',
            'hand-written model TenpyModel/C12/{Mat,Sites,JW}.lean, tied to tenpy/networks/{site,terms,mps}.py by this '
@@ -32,6 +36,9 @@ TRUSTED = ['Lean 4.33 kernel; axioms of every C12_* theorem within {propext, Cla
            'transposes, charge rule) and explicit Jordan-Wigner by np.kron from 2x2 mode operators',
            'irrational entries are represented by their rational squares; theorems quantify over every field '
            'element with that square',
+           'the model-API layer (CouplingModel.add_* incl. the plus_hc recursion) has no Lean model: it is checked by the '
+           'dense oracle only (MPO -> ExactDiag and H_bond -> ExactDiag against explicit Jordan-Wigner operators, '
+           'Hermiticity when the h.c. was requested)',
            'JSON line driver lean/drivers/C12.lean and the serialisers in harness/c12_*.py']
 ASSUMPTIONS = ['numpy dense linear algebra (matmul, kron) on matrices of dimension <= 1100',
                'np.lexsort is stable (model: stable insertion sort, last charge most significant)',
@@ -64,6 +71,8 @@ def _replay_case(ctx, case):
         c12_grouped.finish(res, lines, pend, True)
     elif part.startswith('chain'):
         res.merge(c12_jw.run_case(ctx, case))
+    elif part == 'model':
+        res.merge(c12_model.run_case(ctx, case))
     elif part == 'needjw':
         c12_jw.run_needjw(ctx, res)
     elif part == 'grouped-chain':
@@ -77,6 +86,7 @@ def run(ctx):
         res.merge(_replay_case(ctx, case.get('case', case)))
     res.merge(c12_sites.run(ctx))
     res.merge(c12_grouped.run(ctx))
+    res.merge(c12_model.run(ctx))
     res.merge(c12_jw.run(ctx))
     return res
 
@@ -85,6 +95,7 @@ def search(ctx, reasons):
     res = core.Result()
     res.merge(c12_sites.search(ctx))
     res.merge(c12_grouped.search(ctx))
+    res.merge(c12_model.search(ctx))
     res.merge(c12_jw.search(ctx))
     return res
 
